@@ -340,6 +340,24 @@ def shrink(case):
     if k in ("scale", "ham") and e["e"]["k"] in ("scale", "sum"):
         for sub_ in ([e["e"]["e"]] if e["e"]["k"] == "scale" else e["e"]["es"]):
             cands.append(dict(e, e=sub_))
+    if k == "cmodel":
+        # shorter chains of the same type (the positions stay; the result must still be a valid case), simpler inner energy
+        rg = case["dom"]["t"] == "rg"
+        for key, ops in sorted(e["ops"].items()):
+            cin = bool(case["cplx"].get(key))
+            t0 = C.chain_ok(ops, cin, rg)
+            for i in range(len(ops)):
+                o2 = ops[:i] + ops[i + 1:]
+                if C.chain_ok(o2, cin, rg) == t0:
+                    c2 = dict(case, e=dict(e, ops=dict(e["ops"], **{key: o2})))
+                    if C.valid(c2):
+                        yield c2
+        if e["e"]["k"] == "scale":
+            yield dict(case, e=dict(e, e=e["e"]["e"]))
+    if k in ("scale", "ham") and e["e"]["k"] == "cmodel":
+        for c2 in shrink(dict(case, e=e["e"])):
+            if c2["e"]["k"] == "cmodel":
+                yield dict(c2, e=dict(e, e=c2["e"]))
     for c in cands:
         sc = _subcase(case, c)
         if sc is not None:
